@@ -48,6 +48,10 @@ func genLayout(r *Rng, big bool) Layout {
 	steps[0] = r.PickInt([]int{1, 1, 2, 3, 5, 10, 60})
 	for i := 1; i < k; i++ {
 		ratios[i-1] = r.PickInt([]int{2, 2, 3, 4, 5, 6, 10})
+		if r.Chance(1, 8) {
+			// larger ratios: thresholds like xFilesFactor·ratio stop being exact in float32
+			ratios[i-1] = r.PickInt([]int{12, 13, 15, 19, 20, 21, 23, 25, 26, 27, 30, 60})
+		}
 		steps[i] = steps[i-1] * ratios[i-1]
 	}
 	ns := make([]int, k)
@@ -144,7 +148,7 @@ type LibGen struct {
 	alwaysSync bool
 }
 
-var xffChoices = []float32{0, 0, 0.5, 1, 0.2, 0.25, 0.3333333, 0.34, 0.1, 0.99, 1e-9}
+var xffChoices = []float32{0, 0, 0.5, 1, 0.2, 0.25, 0.3333333, 0.34, 0.1, 0.99, 1e-9, 0.6, 0.3, 0.7, 0.4, 0.9}
 
 func newLibGen(r *Rng, prop string, big bool) *LibGen {
 	g := &LibGen{r: r, prop: prop}
@@ -167,8 +171,12 @@ func newLibGen(r *Rng, prop string, big bool) *LibGen {
 	g.agg = 1 + r.Intn(6)
 	g.xff = math.Float32bits(xffChoices[r.Intn(len(xffChoices))])
 	if r.Chance(1, 6) {
-		// k/n and its float32 neighbours
+		// k/n and its float32 neighbours (n: a small number, or one of the layout's step ratios)
 		n := 2 + r.Intn(9)
+		if g.lay.K() >= 2 && r.Bool() {
+			j := r.Intn(g.lay.K() - 1)
+			n = g.lay.Steps[j+1] / g.lay.Steps[j]
+		}
 		k := 1 + r.Intn(n)
 		f := float32(k) / float32(n)
 		g.xff = math.Float32bits(f)
@@ -215,6 +223,57 @@ func (g *LibGen) genBatch() string {
 		pts = append(pts, g.genPoint())
 	}
 	return strings.Join(pts, ",")
+}
+
+// XffBoundary (C02): two archives with step ratio n, xFilesFactor = float32(k)/float32(n) or
+// a float32 neighbour (or a short decimal), and exactly k−1, k, k+1 known finer values
+// inside coarse intervals: is the coarser slot stored or left alone?
+func genXffBoundary(r *Rng, prop string) []Op {
+	n := r.PickInt([]int{2, 3, 4, 5, 6, 7, 9, 10, 12, 13, 15, 19, 20, 21, 23, 25, 26, 27, 30, 60})
+	s0 := r.PickInt([]int{1, 1, 2, 5})
+	cnt1 := 4 + r.Intn(4)
+	lay := Layout{[]int{s0, s0 * n}, []int{n * (2 + r.Intn(2)), cnt1}}
+	if lay.Ns[0]*s0 >= lay.Ns[1]*s0*n {
+		lay.Ns[1] = lay.Ns[0]/n + 2
+	}
+	k := 1 + r.Intn(n)
+	xf := float32(k) / float32(n)
+	xff := math.Float32bits(xf)
+	switch r.Intn(5) {
+	case 0:
+		xff--
+	case 1:
+		if xf < 1 {
+			xff++
+		}
+	case 2:
+		xff = math.Float32bits([]float32{0.1, 0.2, 0.3, 0.4, 0.6, 0.7, 0.8, 0.9}[r.Intn(8)])
+	}
+	agg := 1 + r.Intn(6)
+	now := 1600000000 + r.Intn(100000000)
+	now -= now % (s0 * n)
+	now += s0*n - 1 // the last finer step of a coarse interval: the whole interval is in reach
+	sRaw := prop == "C02" || prop == "C03"
+	ops := []Op{{"reset", false}, {fmt.Sprintf("create %s %d %08x", lay, agg, xff), true}}
+	base := now - (now % (s0 * n))
+	for _, known := range []int{k - 1, k, k + 1} {
+		if known < 1 || known > n {
+			continue
+		}
+		// a fresh coarse interval each time: one interval back per round
+		var pts []string
+		perm := r.Perm(n)
+		for j := 0; j < known; j++ {
+			pts = append(pts, fmt.Sprintf("%d:%s", base+perm[j]*s0, genVal(r, false)))
+		}
+		ops = append(ops, Op{fmt.Sprintf("updmany -1 %d %s", now, strings.Join(pts, ",")), prop == "C02"})
+		ops = append(ops, Op{"raw 1", sRaw}, Op{fmt.Sprintf("fetch 1 %d %d %d", base-1, base+s0*n, now), true})
+		base -= s0 * n
+		if base <= now-lay.Ns[0]*s0 {
+			break
+		}
+	}
+	return ops
 }
 
 func (g *LibGen) validID() int {
